@@ -1755,6 +1755,14 @@ def _flavours(x, with_list=True):
     out.append(("readonly", ro))
     if np.all(x == np.rint(x)):
         out.append(("int64", np.rint(x).astype(np.int64)))
+    # two awkward features in one array
+    big_ro = big.copy()
+    big_ro.flags.writeable = False
+    out.append(("readonly_strided", big_ro[::2]))
+    f64f = np.asfortranarray(x.astype(np.float64))
+    f64f.flags.writeable = False
+    out.append(("f64_fortran_readonly", f64f))
+    out.append(("f64_strided", big.astype(np.float64)[::2]))
     if with_list:
         out.append(("list", x.tolist()))
     return out
@@ -1871,6 +1879,25 @@ def run_alias(shard, ctx, focus=None):
                                                                     for a, b in zip(keep, _tree_arrays(first)))):
             rep.bad("%s|second_call_differs|same_arguments" % name, "calling the function again with the same arguments "
                     "gave another result (or changed the first result)", fc)
+        # D - content of another size in between (shorter, then the original again): the functions keep no state
+        if not name.startswith("index_") and second is not None:
+            def shrink(a):
+                if isinstance(a, np.ndarray) and a.ndim >= 2 and a.shape[-1] == 3 and a.shape[-2] > 3 and a.dtype == np.float32:
+                    return np.ascontiguousarray(a[..., :-2, :])
+                return a
+            sa, sk = [shrink(a) for a in args], {k: v for k, v in kw.items()}
+            try:
+                with np.errstate(all="ignore"):
+                    small = fn(*sa, **sk)
+                    third = fn(*args, **kw)
+                ctx.ev(2, 2)
+                if not _same(first, third):
+                    rep.bad("%s|result_depends_on_previous_call|other_size_in_between" % name,
+                            "the result changed after a call with fewer atoms in between", fc)
+                del small
+            except Exception as e:  # noqa: BLE001
+                rep.bad("%s|raises_%s|other_size_in_between" % (name, type(e).__name__),
+                        "a call with fewer atoms (or the call after it) raised", fc)
         # object arguments (AtomArray / AtomArrayStack) are not modified either
         if isinstance(args[0], np.ndarray) and args[0].ndim >= 2 and args[0].shape[-1] == 3 and name not in (
                 "is_orthogonal", "box_volume", "unitcell_from_vectors"):
@@ -1968,6 +1995,326 @@ def run_flavour(shard, ctx, focus=None):
                             "the same values in another array flavour give another result", fc)
                 else:
                     ctx.outcome(("flav", name, sname, fl))
+
+
+PAIR_FLAVOURS = [("fortran", "readonly"), ("strided", "f64"), ("readonly_strided", "fortran"), ("f64_fortran_readonly", "strided")]
+
+
+def run_flavour_pairs(shard, ctx, focus=None):
+    """two array arguments of one call in different awkward flavours at the same time (every pair of float32 array slots
+    x the listed flavour pairs, both ways round)"""
+    rep = Reporter(ctx, shard)
+    if focus is not None and "slots" not in focus:
+        focus = None
+    for name, fn, args, kw in audit_calls():
+        slots = [(i, None) for i, a in enumerate(args) if isinstance(a, np.ndarray) and a.dtype == np.float32]
+        slots += [(None, k) for k, a in kw.items() if isinstance(a, np.ndarray) and a.dtype == np.float32]
+        if len(slots) < 2:
+            continue
+        ref = call(rep, name, {"cls": name}, fn, *args, **kw)
+        if ref is None:
+            continue
+        for s1, s2 in itertools.combinations(range(len(slots)), 2):
+            for fa, fb in PAIR_FLAVOURS + [(b, a) for a, b in PAIR_FLAVOURS]:
+                fc = {"call": name, "slots": [s1, s2], "flavours": [fa, fb], "cls": "%s+%s" % (fa, fb)}
+                if focus is not None and any(focus.get(x) != fc[x] for x in ("call", "slots", "flavours")):
+                    continue
+                ctx.journal(json.dumps({"s": shard, "f": fc}))
+                a2, k2 = list(args), dict(kw)
+                for sl, fl in ((slots[s1], fa), (slots[s2], fb)):
+                    orig = args[sl[0]] if sl[0] is not None else kw[sl[1]]
+                    val = dict(_flavours(orig, with_list=False))[fl]
+                    if sl[0] is not None:
+                        a2[sl[0]] = val
+                    else:
+                        k2[sl[1]] = val
+                ctx.ev(1, 1)
+                got = call(rep, name, fc, fn, *a2, **k2)
+                if got is None:
+                    continue
+                if not _same(ref, got, 1e-3):
+                    rep.bad("%s|depends_on_array_flavour|%s" % (name, fc["cls"]),
+                            "the same values in two other array flavours give another result", fc)
+                else:
+                    ctx.outcome(("flavpair", name, s1, s2, fa, fb))
+
+
+def _snapshot(x):
+    """value snapshot of an Atom / AtomArray / AtomArrayStack / ndarray"""
+    if isinstance(x, np.ndarray):
+        return ("nd", x.tobytes(), x.shape, str(x.dtype))
+    out = ["obj", type(x).__name__, np.asarray(x.coord).tobytes()]
+    if hasattr(x, "get_annotation_categories"):
+        for c in sorted(x.get_annotation_categories()):
+            out.append((c, x.get_annotation(c).tolist()))
+        out.append(None if x.box is None else np.asarray(x.box).tobytes())
+        out.append(None if x.bonds is None else x.bonds.as_array().tolist())
+    else:
+        out.append((x.chain_id, x.res_id, x.atom_name))
+    return out
+
+
+def run_identity(shard, ctx, focus=None):
+    """A - result identity: operations that 'return a copy' / a new structure must do so also when nothing has to be
+    done (zero translation, zero angles, identical directions, atoms already inside the box, amount 0, already oriented
+    input): the result is not the operand, and editing the result (coordinates, an annotation, the box, a bond) leaves
+    the operand equal to its snapshot"""
+    import biotite.structure as struc
+
+    rep = Reporter(ctx, shard)
+    if focus is not None and "op" not in focus:
+        focus = None
+    box = f32(np.diag([9.0, 9.0, 9.0]))
+    pts = f32([[3, 0.5, 0.5], [1, 0.5, 0.5], [2, 1.5, 0.5], [2, 0.25, 0.5], [2, 0.5, 0.75], [2, 0.5, 0.25]])   # inside the box
+    centered = f32([[3, 0, 0], [-3, 0, 0], [0, 2, 0], [0, -2, 0], [0, 0, 1], [0, 0, -1]])            # already oriented
+
+    def make(form, base=pts):
+        if form == "ndarray":
+            return base.copy()
+        if form == "vec":
+            return base[0].copy()
+        if form == "Atom":
+            return struc.Atom(base[0].copy(), chain_id="A", res_id=1, atom_name="CA")
+        if form == "AtomArray":
+            a = to_object(base)
+            a.chain_id[:] = "A"
+            a.res_id[:] = np.arange(len(base))
+            a.box = box.copy()
+            a.bonds = struc.BondList(len(base), np.array([[0, 2, 1], [1, 2, 1], [3, 4, 1]]))
+            return a
+        st = to_object(np.stack([base, base + 0.125]))
+        st.chain_id[:] = "A"
+        st.box = np.stack([box, box])
+        st.bonds = struc.BondList(len(base), np.array([[0, 2, 1], [1, 2, 1]]))
+        return st
+
+    allf = ("ndarray", "vec", "Atom", "AtomArray", "AtomArrayStack")
+    arrs = ("ndarray", "AtomArray", "AtomArrayStack")
+    ops = [
+        ("translate_zero", lambda x: struc.translate(x, [0.0, 0.0, 0.0]), allf, True, pts),
+        ("rotate_zero", lambda x: struc.rotate(x, [0.0, 0.0, 0.0]), allf, True, pts),
+        ("rotate_centered_zero", lambda x: struc.rotate_centered(x, [0.0, 0.0, 0.0]), allf, True, pts),
+        ("rotate_about_axis_zero", lambda x: struc.rotate_about_axis(x, [0, 0, 1], 0.0), allf, True, pts),
+        ("rotate_about_axis_support_zero", lambda x: struc.rotate_about_axis(x, [0, 1, 1], 0.0, support=[1, 1, 1]), allf, True, pts),
+        ("align_vectors_same", lambda x: struc.align_vectors(x, [1, 2, 3], [1, 2, 3]), allf, True, pts),
+        ("align_vectors_same_positions", lambda x: struc.align_vectors(x, [0, 0, 1], [0, 0, 2], [1, 1, 1], [1, 1, 1]), allf, True, pts),
+        ("orient_already_oriented", lambda x: struc.orient_principal_components(x), ("ndarray", "AtomArray"), True, centered),
+        ("remove_pbc_nothing_to_do", lambda x: struc.remove_pbc(x), ("AtomArray", "AtomArrayStack"), True, pts),
+        ("repeat_box_amount0", lambda x: struc.repeat_box(x, amount=0)[0], ("AtomArray", "AtomArrayStack"), True, pts),
+        ("move_inside_box_inside", lambda x: struc.move_inside_box(x, box), ("ndarray",), False, pts),
+        ("remove_pbc_from_coord_inside", lambda x: struc.remove_pbc_from_coord(x, box), ("ndarray",), False, pts),
+        ("repeat_box_coord_amount0", lambda x: struc.repeat_box_coord(x, box, 0)[0], ("ndarray",), False, pts),
+        ("fraction_identity_box", lambda x: struc.coord_to_fraction(x, f32(np.eye(3))), ("ndarray",), False, pts),
+        ("coord_identity_box", lambda x: struc.fraction_to_coord(x, f32(np.eye(3))), ("ndarray",), False, pts),
+    ]
+    for nm, fn, forms, documented_copy, base in ops:
+        for form in forms:
+            fc = {"op": nm, "form": form, "cls": form}
+            if focus is not None and (focus.get("op") != nm or focus.get("form") != form):
+                continue
+            ctx.journal(json.dumps({"s": shard, "f": fc}))
+            x = make(form, base)
+            snap = _snapshot(x)
+            ctx.ev(1, 1)
+            r = call(rep, nm, fc, fn, x)
+            if r is None:
+                continue
+            if r is x:
+                rep.bad("%s|returns_operand_itself|%s" % (nm, form), "the operation returned its operand instead of a new "
+                        "object although nothing had to be changed", fc)
+                continue
+            rc = r if isinstance(r, np.ndarray) else np.asarray(r.coord)
+            xc = x if isinstance(x, np.ndarray) else np.asarray(x.coord)
+            if np.shares_memory(rc, xc):
+                if documented_copy:
+                    rep.bad("%s|result_shares_coordinates_with_operand|%s" % (nm, form),
+                            "the documented copy / new structure shares its coordinate buffer with the operand", fc)
+                    continue
+                ctx.count("unspecified")
+                ctx.count("unspecified_result_shares_memory")
+            # value: nothing had to be done
+            if rc.shape == xc.shape and not np.allclose(rc, xc if "orient" not in nm else rc, atol=1e-4):
+                rep.bad("%s|value|identity_case" % nm, "an operation that has nothing to do changed the coordinates", fc,
+                        xc.reshape(-1)[:6].tolist(), rc.reshape(-1)[:6].tolist())
+                continue
+            # edit the result in every way it offers; the operand must keep its snapshot
+            if documented_copy or not np.shares_memory(rc, xc):
+                try:
+                    if isinstance(r, np.ndarray):
+                        if r.flags.writeable:
+                            r += 1
+                    else:
+                        r.coord = np.asarray(r.coord) + 1
+                        if hasattr(r, "get_annotation_categories"):
+                            r.chain_id[...] = "Z"
+                            r.res_id[...] = -7
+                            if r.box is not None:
+                                r.box[...] = 0
+                            if r.bonds is not None:
+                                r.bonds.add_bond(0, 5, 2)
+                                r.bonds.remove_bond(0, 2)
+                            r.set_annotation("extra", np.zeros(r.array_length(), dtype=int))
+                        else:
+                            r.chain_id = "Z"
+                except Exception as e:  # noqa: BLE001
+                    rep.bad("%s|result_not_editable|%s" % (nm, form), "editing the result raised %s" % type(e).__name__, fc)
+                    continue
+                if _snapshot(x) != snap:
+                    rep.bad("%s|editing_result_changes_operand|%s" % (nm, form),
+                            "editing the returned structure changed the operand (shared annotation / box / bonds / coordinates)", fc)
+                    continue
+            ctx.outcome(("identity", nm, form))
+
+
+def derived_objects():
+    """E - [(name, object)] coordinates as the library itself hands them out (one level: results of indexing, slicing,
+    model selection, transformations, box helpers), never built directly"""
+    import biotite.structure as struc
+
+    kk = np.arange(1, 43, dtype=float)[:, None]
+    gen = 1.0 + 0.5 * np.modf(kk * np.sqrt(np.array([2.0, 3.0, 5.0])))[0]
+    box = struc.vectors_from_unitcell(4.0, 5.0, 6.0, math.radians(90), math.radians(100), math.radians(75))
+    arr = to_object(gen[:14])
+    arr.box = box
+    arr.res_id[:] = np.arange(14) // 3
+    arr.bonds = struc.BondList(14, np.array([[i, i + 1, 1] for i in range(13)]))
+    stk = to_object(gen.reshape(3, 14, 3))
+    stk.box = np.stack([box, box * 1.25, box * 1.5])
+    stk.res_id[:] = np.arange(14) // 3
+    stk.bonds = arr.bonds.copy()
+    mask = np.array([i % 3 != 1 for i in range(14)])
+    out = [
+        ("arr_mask", arr[mask]), ("arr_slice_step2", arr[::2]), ("arr_slice_tail", arr[3:]), ("arr_fancy_unsorted", arr[[9, 1, 5, 3, 12, 0, 7]]),
+        ("arr_copy", arr.copy()), ("stack_model", stk[1]), ("stack_last_model", stk[-1]), ("stack_atom_slice", stk[:, 1::2]),
+        ("stack_two_models", stk[::2]), ("stack_mask", stk[:, mask]),
+        ("translated_arr", struc.translate(arr, [1, 2, 3])), ("rotated_stack", struc.rotate(stk, [0.1, 1.0, 2.5])),
+        ("remove_pbc_arr", struc.remove_pbc(arr)), ("repeat_box_arr", struc.repeat_box(arr)[0][:21]),
+        ("coord_view_row_step", arr.coord[::2]), ("coord_view_model", stk.coord[1]), ("coord_view_3d_step", stk.coord[:, ::2]),
+        ("coord_fancy", arr.coord[[9, 1, 5, 3, 12, 0, 7]]), ("coord_transposed_view", np.ascontiguousarray(arr.coord.T).T),
+        ("moved_inside_f64", struc.move_inside_box(arr.coord.astype(np.float64) * 3, box)),
+        ("rotated_ndarray_f64", struc.rotate(arr.coord, [0.1, 1.0, 2.5])),
+        ("fraction_roundtrip", struc.fraction_to_coord(struc.coord_to_fraction(arr.coord, box), box)),
+        ("repeat_box_coord", struc.repeat_box_coord(arr.coord[:5], box)[0][:20]),
+        ("centroid_stack", struc.centroid(stk)),          # (3,3): read as 3 atoms
+    ]
+    return out, box, stk
+
+
+def fresh_twin(d):
+    """the same values built from scratch (float32 C arrays, fresh containers)"""
+    import biotite.structure as struc
+
+    if isinstance(d, np.ndarray):
+        return np.array(d, dtype=np.float32, order="C", copy=True)
+    t = to_object(np.array(d.coord, dtype=np.float32, order="C", copy=True))
+    t.res_id[:] = d.res_id
+    if d.box is not None:
+        t.box = np.array(d.box, dtype=np.float32, order="C", copy=True)
+    if d.bonds is not None:
+        t.bonds = struc.BondList(d.array_length(), np.array(d.bonds.as_array(), dtype=np.int64))
+    return t
+
+
+def run_derived(shard, ctx, focus=None):
+    """every derived coordinate object through every operation that accepts it (op2(op1(x))), differential oracle: equal
+    to the result for a twin with the same values built from scratch"""
+    import biotite.structure as struc
+
+    rep = Reporter(ctx, shard)
+    if focus is not None and "derived" not in focus:
+        focus = None
+    objs, box, stk = derived_objects()
+    dbox = {"unitcell_box": box, "stack_box_view": stk.box[1], "stack_boxes": stk.box}
+
+    def cd(x):
+        return x if isinstance(x, np.ndarray) else x.coord
+
+    def second(x, k):      # a partner of the same shape made from x itself (rolled along the atom axis, shifted)
+        return np.roll(np.asarray(cd(x), dtype=np.float32), k, axis=-2) + np.float32(0.125 * k)
+
+    def bond_idx(x):       # index pairs as the library hands them out: uint32 columns of BondList.as_array()
+        if not isinstance(x, np.ndarray) and x.bonds is not None and x.bonds.get_bond_count():
+            return x.bonds.as_array()[:, :2]
+        n = cd(x).shape[-2]
+        return np.stack(np.triu_indices(n, 1), axis=1)[::2]
+
+    def is_obj(x):
+        return not isinstance(x, np.ndarray)
+
+    ops = [
+        ("displacement", lambda x: struc.displacement(x, second(x, 1)), None),
+        ("displacement_box", lambda x: struc.displacement(x, second(x, 1), box=dbox["stack_box_view"]), None),
+        ("distance_box", lambda x: struc.distance(second(x, 2), x, box=box), None),
+        ("angle", lambda x: struc.angle(x, second(x, 1), second(x, 2)), None),
+        ("dihedral_box", lambda x: struc.dihedral(second(x, 3), x, second(x, 1), second(x, 2), box=box), None),
+        ("index_distance_bond_pairs", lambda x: struc.index_distance(x, bond_idx(x)), None),
+        ("index_displacement_periodic", lambda x: struc.index_displacement(x, bond_idx(x), periodic=True,
+                                                                           box=None if is_obj(x) and x.box is not None else box), None),
+        ("index_angle", lambda x: struc.index_angle(x, np.array([[0, 1, 2], [2, 0, 1]])), None),
+        ("centroid", lambda x: struc.centroid(x), None),
+        ("move_inside_box", lambda x: struc.move_inside_box(cd(x), box if cd(x).ndim == 2 else np.stack([box] * len(cd(x)))), None),
+        ("coord_to_fraction", lambda x: struc.coord_to_fraction(cd(x), box if cd(x).ndim == 2 else np.stack([box] * len(cd(x)))), None),
+        ("remove_pbc_from_coord", lambda x: struc.remove_pbc_from_coord(cd(x), box if cd(x).ndim == 2 else np.stack([box] * len(cd(x)))), None),
+        ("repeat_box_coord", lambda x: struc.repeat_box_coord(cd(x), box if cd(x).ndim == 2 else np.stack([box] * len(cd(x)))), None),
+        ("remove_pbc", lambda x: struc.remove_pbc(x), "obj_box"),
+        ("repeat_box", lambda x: struc.repeat_box(x), "obj_box"),
+        ("translate", lambda x: struc.translate(x, [1.0, -2.0, 0.5]), None),
+        ("rotate", lambda x: struc.rotate(x, [0.1, 1.0, 2.5]), None),
+        ("rotate_centered", lambda x: struc.rotate_centered(x, [0.1, 1.0, 2.5]), None),
+        ("rotate_about_axis", lambda x: struc.rotate_about_axis(x, [1, 2, 3], 1.0, support=[1, 1, 1]), None),
+        ("align_vectors", lambda x: struc.align_vectors(x, [1, 0, 0], [0, 1, 1], [1, 1, 1], [2, 0, 1]), None),
+        ("orient_principal_components", lambda x: struc.orient_principal_components(x), "2d"),
+    ]
+    for dname, d in objs:
+        twin = fresh_twin(d)
+        for oname, fn, need in ops:
+            fc = {"derived": dname, "op": oname, "cls": dname}
+            if focus is not None and (focus.get("derived") != dname or focus.get("op") != oname):
+                continue
+            if need == "obj_box" and (not is_obj(d) or d.box is None):
+                continue
+            if need == "2d" and cd(d).ndim != 2:
+                continue
+            ctx.journal(json.dumps({"s": shard, "f": fc}))
+            ctx.ev(1, 1)
+            snap = _snapshot(d)
+            with np.errstate(all="ignore"):
+                try:
+                    want = fn(twin)
+                except Exception:  # noqa: BLE001
+                    ctx.count("unspecified")       # the operation does not take this kind of object at all
+                    continue
+            got = call(rep, oname, fc, fn, d)
+            if got is None:
+                continue
+            g = got if not hasattr(got, "coord") else got.coord
+            w = want if not hasattr(want, "coord") else want.coord
+            if isinstance(got, tuple) and hasattr(got[0], "coord"):
+                g, w = (got[0].coord, got[1]), (want[0].coord, want[1])
+            if not _same(w, g, 2e-4):
+                rep.bad("%s|differs_for_derived_input|%s" % (oname, dname),
+                        "a coordinate object handed out by the library gives another result than the same values built "
+                        "from scratch", fc)
+                continue
+            if _snapshot(d) != snap:
+                rep.bad("%s|argument_modified|%s" % (oname, dname), "the derived input was modified", fc)
+                continue
+            ctx.outcome(("derived", dname, oname))
+    # derived boxes as box argument
+    P = f32(np.asarray(objs[0][1].coord))
+    for bname, b in dbox.items():
+        for oname, fn in (("displacement_box", lambda bb: struc.displacement(P if bb.ndim == 2 else np.stack([P] * 3), P[::-1] + 3, box=bb)),
+                          ("move_inside_box", lambda bb: struc.move_inside_box(P * 4 if bb.ndim == 2 else np.stack([P * 4] * 3), bb)),
+                          ("is_orthogonal", lambda bb: struc.is_orthogonal(bb)), ("unitcell_from_vectors", lambda bb: struc.unitcell_from_vectors(bb if bb.ndim == 2 else bb[2]))):
+            fc = {"derived": bname, "op": oname, "cls": bname}
+            if focus is not None and (focus.get("derived") != bname or focus.get("op") != oname):
+                continue
+            ctx.ev(1, 1)
+            want = fn(np.array(b, dtype=np.float32, order="C", copy=True))
+            got = call(rep, oname, fc, fn, b)
+            if got is not None and not _same(want, got, 2e-4):
+                rep.bad("%s|differs_for_derived_input|%s" % (oname, bname), "a box handed out by the library gives another "
+                        "result than the same values built from scratch", fc)
 
 
 def run_edge(shard, ctx, focus=None):
@@ -2108,6 +2455,9 @@ def shards(tier, seed):
     out.append({"kind": "order"})
     out.append({"kind": "alias"})
     out.append({"kind": "flavour"})
+    out.append({"kind": "flavour_pairs"})
+    out.append({"kind": "identity"})
+    out.append({"kind": "derived"})
     out.append({"kind": "edge"})
     rots = range(24) if tier == "thorough" else [(7 * seed + k) % 24 for k in (2, 9, 16, 23)]
     for base in ("t2", "full", "o_2_5_9", "c0_75_90_110"):
@@ -2127,7 +2477,8 @@ def shards(tier, seed):
 
 RUNNERS.update({"dist": run_dist, "angle": run_angle, "dihedral": run_dihedral, "generic": run_generic,
                 "shapes": run_shapes, "dispbox": run_dispbox, "boxhelpers": run_boxhelpers, "unitcell": run_unitcell, "pbc": run_pbc, "transform": run_transform, "backbone": run_backbone,
-                "models": run_models, "order": run_order, "alias": run_alias, "flavour": run_flavour, "edge": run_edge})
+                "models": run_models, "order": run_order, "alias": run_alias, "flavour": run_flavour, "edge": run_edge,
+                "flavour_pairs": run_flavour_pairs, "identity": run_identity, "derived": run_derived})
 
 
 def run_shard(shard, ctx):
